@@ -168,6 +168,10 @@ class OomSession(BusSession):
             return R.bus_call(s, 'RemoveMatch', [R.S(RULE2)])
         if kind == 'call':
             return R.method_call(s, self.uname[op[2]], '/o', 'o.i', 'Do', [R.S('payload')])
+        if kind == 'callfd':
+            # a call carrying one descriptor (the harness attaches its descriptor 0)
+            return R.Msg(R.MT_CALL, 0, s, [(R.F_PATH, (b'o', b'/o')), (R.F_INTERFACE, (b's', b'o.i')), (R.F_MEMBER, (b's', b'DoFd')),
+                                           (R.F_DESTINATION, (b's', self.uname[op[2]])), (R.F_UNIX_FDS, (b'u', 1))], [R.S('payload'), R.H(0)])
         if kind == 'callname':
             return R.method_call(s, N1, '/o', 'o.i', 'Do', [R.S('payload')])
         if kind == 'reply':
@@ -229,6 +233,7 @@ def requests_for(prefix):
         reqs.append(['req', 'B', f])
     reqs.append(['req', 'A', 2])
     reqs.append(['req', 'C', 3])
+    reqs.append(['callfd', 'C', 'B'])
     # a connection going away is also "an operation": its cleanup must complete whatever allocation fails
     reqs.append(['disc', 'A'])
     reqs.append(['disc', 'B'])
@@ -255,7 +260,11 @@ def run_once(prefix, req, k):
         s.slots[req[1]] = None
     else:
         m = s.build(req)
-        s.bus.send(c, R.encode_message(m))
+        if req[0] == 'callfd':
+            s.bus.h.cmd('MKFD 1')
+            s.bus.send(c, R.encode_message(m), fds=[0])
+        else:
+            s.bus.send(c, R.encode_message(m))
     fired = False
     if k is not None:
         s.bus.h.cmd('FAILALLOC %d' % k)
@@ -349,7 +358,7 @@ def task_bus(t):
                     # retry on the same bus must now give the complete outcome
                     s = r['session']
                     m2 = s.build(r['req'])
-                    s.send(r['req'][1], m2)
+                    s.send(r['req'][1], m2, fds=[0] if r['req'][0] == 'callfd' else None)
                     if r['req'][0] == 'hello':
                         rep = [o for o in s.inbox.get(r['req'][1], []) if o.kind == R.MT_RETURN and o.rserial == m2.serial]
                         if rep:
